@@ -27,6 +27,8 @@ def mk (c s mn mx : String) : Option (Option Summary) :=
 /-- one operation of the sequence; `none` = malformed, `some none` = refused operand -/
 def stepOp (st : Summary) : List String → Option (Option Summary × List String)
   | "new" :: rest => some (some st, rest)
+  | "addcount" :: f :: rest => (parseF64 f).map fun f => (some (st.addToCount f), rest)
+  | "addsum" :: f :: rest => (parseF64 f).map fun f => (some (st.addToSum f), rest)
   | "rescale" :: f :: rest => (parseF64 f).map fun f => (some (st.rescale f), rest)
   | "reweight" :: f :: rest => (parseF64 f).map fun f => (some (st.reweight f), rest)
   | "add" :: v :: w :: rest =>
